@@ -1,7 +1,7 @@
 /- Lemmas/AssembledWFDebug.lean — files assembled with debug symbols are well-formed too (C17): the line map is strictly
    ascending inside each block because `lookup_line` is injective (C24). -/
 import Lc3V.Lemmas.AssembledWF
-import Lc3V.Props.C24
+import Lc3V.Lemmas.C24Core
 import Lc3V.Props.C25
 set_option linter.unusedSimpArgs false
 set_option linter.unusedVariables false
